@@ -205,9 +205,20 @@ def run_behaviour(chk, T, beh, rnd):
                     real[i].load(tmp)
                 elif form == "string" and "schemes" in d:
                     ARMED["on"] = False
-                    text = CryptContext(**d).to_string()
+                    section = rnd.choice(["passlib", "passlib", "myapp-policy"])
+                    text = CryptContext(**d).to_string(section=section)
                     ARMED["on"] = st["armed"]
-                    real[i].load(text)
+                    if rnd.random() < .4:
+                        # through a file on disk, possibly next to other sections
+                        import tempfile
+                        with tempfile.NamedTemporaryFile("w", suffix=".ini", delete=False, encoding="utf-8") as fh:
+                            fh.write("[other]\nschemes = nothing\n\n" + text + "\n[trailer]\nx = 1\n")
+                        try:
+                            real[i].load_path(fh.name, section=section)
+                        finally:
+                            __import__("os").unlink(fh.name)
+                    else:
+                        real[i].load(text, section=section)
                 else:
                     real[i].load(d)
             elif op == "update":
